@@ -536,6 +536,7 @@ static void run_program(seqx::Runner &R, int entry, const std::vector<Script> &s
         for (int k = 0; k < 2; k++) e->prom[k](cocls::drop);
         R.outcome(seqx::hash_str(r.trace));
         R.state(seqx::hash_str(r.trace) ^ 0x55);
+        if (cocls::coro_queue::is_active()) seq_reset_thread_state();  // (reported above as sched/queue-left-active)
         g_env = nullptr;
         if (r.failed) {
             // objects may be in an inconsistent state (e.g. a parked coroutine): do not run destructors that assert
